@@ -76,6 +76,12 @@ class Scenario(sc.SockWorld):
     def __init__(self, params):
         super().__init__(params)
         self.max_send = params.get("max_send", 12)
+        if params.get("refuse_first"):
+            # the first attempt is refused: for the next two seconds the link is down with NO attempt in flight (then
+            # the retry is pending like the first one was)
+            self.loop.settle()
+            self.net.resolve(False)
+            self.loop.settle()
         self.nadv = 0
         self.accepted_conn = False
         self.stalled = False
@@ -423,13 +429,17 @@ def run(tier, seed, part=None):
     if tier == "quick":
         plans = [({"max_send": 12, "max_adv": 1, "pattern": "BBIIIIIIBBBI"}, 13, 0),
                  ({"max_send": 5, "max_adv": 2, "pattern": "BBBBB"}, 8, 0),
-                 ({"max_send": 4, "max_adv": 1, "pattern": "BBBB", "stall": True}, 8, 0)]
+                 ({"max_send": 4, "max_adv": 1, "pattern": "BBBB", "stall": True}, 8, 0),
+                 ({"max_send": 12, "max_adv": 1, "pattern": "IIIIIIIIIBBB", "refuse_first": True}, 14, 0),
+                 ({"max_send": 3, "max_adv": 2, "pattern": "BBB", "refuse_first": True}, 6, 0)]
         cap = 45
     else:
         plans = [({"max_send": 12, "max_adv": 1, "pattern": "B" * 12}, 14, 0),
                  ({"max_send": 12, "max_adv": 3, "pattern": "BBIIIIIIBBBI"}, 16, 0),
                  ({"max_send": 7, "max_adv": 4, "pattern": "B" * 7}, 12, 0),
-                 ({"max_send": 6, "max_adv": 2, "pattern": "B" * 6, "stall": True}, 12, 0)]
+                 ({"max_send": 6, "max_adv": 2, "pattern": "B" * 6, "stall": True}, 12, 0),
+                 ({"max_send": 12, "max_adv": 2, "pattern": "IIIIIIIIBBBB", "refuse_first": True}, 15, 0),
+                 ({"max_send": 6, "max_adv": 3, "pattern": "B" * 6, "refuse_first": True}, 10, 0)]
         cap = 300
     # scripted families first: each is a handful of complete executions in this process, and one of them (two clients
     # side by side) is the very thing that would make the explorer's own executions interfere with each other -
@@ -445,6 +455,6 @@ def run(tier, seed, part=None):
             params = dict(gen=gen, **extra)
             res = explorer.explore(SPEC, params, depth, dev, time_cap=cap, seed=seed, do_finish=False,
                                    label=f"at{gen}/{extra}/d{depth}")
-            chk.add_explorer(f"at{gen}/{extra['max_send']}sends/{extra['max_adv']}adv" + ("/stall" if extra.get("stall") else ""), SPEC, params, res, {"depth": depth, "deviations": dev, **extra})
+            chk.add_explorer(f"at{gen}/{extra['max_send']}sends/{extra['max_adv']}adv" + ("/stall" if extra.get("stall") else "") + ("/refused-first" if extra.get("refuse_first") else ""), SPEC, params, res, {"depth": depth, "deviations": dev, **extra})
     chk.add_audit(SPEC, {"gen": 4, "max_send": 5, "max_adv": 2, "pattern": "BBBBB"}, 6, 0, limit=4000 if tier == "thorough" else 600)
     return chk.finish()
